@@ -22,6 +22,8 @@ VIEWS = {
     "C07": ["st", "mls", "chain", "members", "mdata", "pend", "props", "msgs", "rec"],
     "C08": ["st", "mls", "chain", "mdata", "rec", "res"],
     "C20": ["mls", "chain", "snaps"],
+    "C03": ["st", "mls", "msgs", "res"],
+    "C18": ["mls", "msgs", "last"],
     "C11": ["st", "mls", "chain", "members", "pend", "props", "mdata", "rec", "last", "msgs", "proc", "snaps", "res", "out"],
 }
 
@@ -286,4 +288,40 @@ def plan_C11(ctx, rt):
                            "predicts with a stuttering Restart; non-trivial = history contains at least one restart")
 
 
-PLANS = {"C11": plan_C11, "C01": plan_C01, "C02": plan_C02, "C07": plan_C07, "C08": plan_C08, "C20": plan_C20}
+def observer_profiles():
+    q = [dict(n=10, steps=60, backend="mixed", regime="causal", profile="members", observers=1),
+         dict(n=10, steps=60, backend="sql", regime="causal", profile="members", observers=1, retention=2),
+         dict(n=8, steps=50, backend="mem", regime="causal", profile="members", observers=1, restarts=0)]
+    t = [dict(n=50, steps=70, backend=["mem", "sql", "mixed"][i % 3], regime="causal", profile="members", observers=1,
+              retention=[5, 2, 1, 3][i % 4]) for i in range(8)]
+    return {"quick": q, "thorough": t}
+
+
+def nt_observer(h):
+    # an eviction or a late join happened and somebody without an operational group was handed events
+    return any(d["op"] == "Deliver" and d["post"].get("mls") != "ok" for d in h)
+
+
+def plan_C03(ctx, rt):
+    return run_marmot(ctx, rt, invariants=["InvC03"], properties=["ActC03"], view="C03", mc=MC_CORE,
+                      profiles=observer_profiles(), nontrivial=nt_observer,
+                      assumptions=ASSUME_MARMOT + ["secrecy of MLS/NIP-44 ciphertext without the key is assumed (symbolic); the check decides "
+                                                    "whether the key-handling logic ever lets a non-member of the sending epoch store or return a message"],
+                      rule="membership histories (adds, removes, leaves, re-invites, rotations, rollbacks) in which every client that holds no "
+                           "operational group (never added, pending, evicted) and every late joiner is handed every published event and welcome; "
+                           "non-trivial = such an observer was handed events")
+
+
+def nt_ptr(h):
+    return sum(1 for d in h if d["op"] == "Send" and d["res"] == "Ok") >= 2
+
+
+def plan_C18(ctx, rt):
+    return run_marmot(ctx, rt, invariants=["InvC18"], view="C18", mc=MC_CORE, profiles=core_profiles(), nontrivial=nt_ptr,
+                      assumptions=ASSUME_MARMOT,
+                      rule="as C01 with rumor timestamps drawn from a 3-value window (ties on created_at; processed_at logged); the cached "
+                           "last-message pointer is bound and compared with the head of the default order over non-invalidated messages after "
+                           "every call; non-trivial = at least two messages created")
+
+
+PLANS = {"C03": plan_C03, "C18": plan_C18, "C11": plan_C11, "C01": plan_C01, "C02": plan_C02, "C07": plan_C07, "C08": plan_C08, "C20": plan_C20}
